@@ -1,5 +1,7 @@
 """Program generation: runs spec/Gen.tla under TLC (exhaustive BFS or -simulate) and collects the
 recipes printed at every Finish.  The specification decides which programs exist; this is plumbing."""
+import gzip
+import hashlib
 import json
 import os
 import tlc
@@ -27,16 +29,54 @@ def cfg_text(c):
     return "\n".join(lines) + "\n"
 
 
+CACHE = os.path.join(tlc.VERIF, "work", "gencache")
+
+
+def _spec_digest():
+    h = hashlib.sha1()
+    for f in ("Gen.tla", "DefInit.tla"):
+        with open(os.path.join(tlc.SPEC, f), "rb") as fh:
+            h.update(fh.read())
+    return h.hexdigest()
+
+
 def run_builder(c, name, simulate=None, depth=None, seed=None, workers=8, timeout=900, module="Gen",
                 cap=None, rnd=None, main_calls=False):
     """Returns (recipes, TLCResult).  Recipes are de-duplicated (a printing action may be evaluated twice).
     cap/rnd: keep a seeded sample of at most cap recipes; main_calls: keep only programs whose main routine
     contains a Call (both applied on the raw lines, before the expensive JSON parsing).
-    res.nrecipes is the number of distinct finished programs TLC produced."""
-    wd = tlc.workdir("gen_" + name)
-    res = tlc.run_tlc(module, cfg_text(c), wd, workers=workers, timeout=timeout, simulate=simulate,
-                      depth=depth, seed=seed, xss="64m")
-    lines = sorted(set(line for line in res.out.splitlines() if line.startswith('"R|')))
+    res.nrecipes is the number of distinct finished programs TLC produced.
+    The behaviours of Gen.tla depend only on the specification and its constants (never on /repo), so the
+    printed recipes of an exhaustive run are cached under work/gencache keyed by the digest of the spec and cfg;
+    setup.sh fills the cache for the quick tier.  res.cached tells whether TLC ran now."""
+    cfg = cfg_text(c)
+    key = hashlib.sha1((_spec_digest() + cfg + repr((simulate, depth, seed, module))).encode()).hexdigest()[:20]
+    cpath = os.path.join(CACHE, key + ".gz")
+    lines = None
+    if os.path.exists(cpath) and not os.environ.get("VERIF_NO_GENCACHE"):
+        try:
+            with gzip.open(cpath, "rt") as fh:
+                meta = json.loads(fh.readline())
+                lines = fh.read().splitlines()
+            res = tlc.TLCResult()
+            res.rc, res.generated, res.distinct, res.wall, res.cached = 0, 0, 0, 0.0, True
+            res.cached_stats = meta
+        except (OSError, ValueError, EOFError):
+            lines = None
+    if lines is None:
+        wd = tlc.workdir("gen_" + name)
+        res = tlc.run_tlc(module, cfg, wd, workers=workers, timeout=timeout, simulate=simulate,
+                          depth=depth, seed=seed, xss="64m")
+        res.cached = False
+        lines = sorted(set(line for line in res.out.splitlines() if line.startswith('"R|')))
+        if not res.error:
+            os.makedirs(CACHE, exist_ok=True)
+            tmp = cpath + ".%d.tmp" % os.getpid()
+            with gzip.open(tmp, "wt") as fh:
+                fh.write(json.dumps({"generated": res.generated, "distinct": res.distinct, "name": name}) + "\n")
+                fh.write("\n".join(lines))
+            os.replace(tmp, cpath)
+        res.out = res.out[-20000:]
     res.nrecipes = len(lines)
     if main_calls:
         def calls(line):
@@ -51,7 +91,6 @@ def run_builder(c, name, simulate=None, depth=None, seed=None, workers=8, timeou
             out.append(json.loads(json.loads(line)[2:]))
         except ValueError:
             continue
-    res.out = res.out[-20000:]
     return out, res
 
 
